@@ -98,6 +98,7 @@ def cases(draw, tier):
         "pre": draw(st.sampled_from([0, 8, 24, 40])), "cap": draw(st.sampled_from([0, 64, 4096])),
         "neg": draw(st.sampled_from([None, None] + NEG)),
         "twice": draw(st.booleans()),
+        "redefine": draw(st.integers(0, 2)) == 0,
     }
 
 
@@ -253,6 +254,18 @@ def run_case(case):
     rtype = CT[case["args"][case["ret"]]["t"]] if ret is not None else "void"
     src = "#include <string.h>\n#include <stdint.h>\n" + f"{rtype} {kname}({', '.join(params)})" + "{\n" + "\n".join(body) + "\n" + (f"  return a{case['ret']};\n" if ret is not None else "") + "}\n"
     kern = xo.Kernel(args=kargs, c_name=kname, ret=ret)
+    if case.get("redefine"):
+        # the name is in use already: an earlier kernel with another signature was built under it in this context and
+        # called; the kernel described NOW is the one that must receive the arguments
+        old = xo.Kernel(args=[xo.Arg(xo.Int32, name="q")], c_name=kname + "_old", ret=xo.Arg(xo.Int32))
+        r = sut(ctx.add_kernels, sources=[f"#include <stdint.h>\nint32_t {kname}_old(int32_t q){{ return q + 1; }}\n"], kernels={kname: old},
+                extra_compile_args=cbuild.FAST_FLAGS, extra_link_args=())
+        if is_raised(r):
+            return fail("kernel_build_failed", f"earlier kernel: {r}", r.key, labels)
+        got = sut(lambda: getattr(ctx.kernels, kname)(q=41))
+        if is_raised(got) or got != 42:
+            return fail("scalar_not_faithful", f"earlier kernel {kname}(q=41) returned {got}", "Int32|earlier_kernel", labels)
+        labels.add("kernel_name_redefined_after_a_call")
     r = sut(ctx.add_kernels, sources=[src], kernels={kname: kern}, extra_compile_args=cbuild.FAST_FLAGS, extra_link_args=())
     if is_raised(r):
         return fail("kernel_build_failed", f"{r}\n{src[:600]}", r.key, labels)
